@@ -36,14 +36,14 @@ package circuitbreaker
 //@   requires notification_runs_unlocked: unlocked(cb.mutex)
 
 //@ func (*CircuitBreaker).setState
-//@   props C07 C08
+//@   props C07 C08 C12
 //@   mode seq, mon
 //@   requires wlocked(cb.mutex)
 //@   ensures set: cb.state == state
 //@   modifies cb.state
 
 //@ func (*CircuitBreaker).admitLocked
-//@   props C07 C08
+//@   props C07 C08 C12
 //@   mode seq, mon
 //@   requires wlocked(cb.mutex)
 //@   ghost exit if cb.state == StateHalfOpen && result == nil :: cb.admitted := cb.admitted + 1
@@ -55,7 +55,7 @@ package circuitbreaker
 //@   modifies cb.requestCount, cb.admitted
 
 //@ func (*CircuitBreaker).recordResultLocked
-//@   props C07 C08
+//@   props C07 C08 C12
 //@   mode seq, mon
 //@   requires wlocked(cb.mutex) && cbCfg(cb) && 0 <= cb.state && cb.state <= 2
 //@   requires seq: cbInv(cb)
@@ -75,7 +75,7 @@ package circuitbreaker
 //@   modifies cb.state, cb.failureCount, cb.successCount, cb.lastFailureTime, cb.lastSuccessTime, cb.nextAttempt
 
 //@ func (*CircuitBreaker).afterRequest
-//@   props C07 C08
+//@   props C07 C08 C12
 //@   mode seq, mon
 //@   requires unlocked(cb.mutex) && cbCfg(cb)
 //@   requires seq: cbInv(cb)
@@ -97,7 +97,7 @@ package circuitbreaker
 //@   modifies cb.state, cb.failureCount, cb.successCount, cb.lastFailureTime, cb.lastSuccessTime, cb.nextAttempt
 
 //@ func (*CircuitBreaker).beforeRequest
-//@   props C07 C08
+//@   props C07 C08 C12
 //@   mode seq, mon
 //@   ghost before setState :: cb.prev := cb.state
 //@   ghost after setState if cb.prev == StateOpen && cb.state == StateHalfOpen :: cb.admitted := 0
@@ -128,7 +128,7 @@ package circuitbreaker
 //@   may_panic
 
 //@ func (*CircuitBreaker).Execute
-//@   props C07 C08
+//@   props C07 C08 C12
 //@   mode seq, mon
 //@   may_panic
 //@   requires unlocked(cb.mutex) && cbCfg(cb) && fn != nil
@@ -162,7 +162,7 @@ package circuitbreaker
 //@   modifies cb.state, cb.failureCount, cb.successCount, cb.requestCount, cb.lastFailureTime, cb.lastSuccessTime, cb.nextAttempt, cb.admitted, cb.prev
 
 //@ func NewCircuitBreaker
-//@   props C07 C08
+//@   props C07 C08 C12
 //@   requires settings.Interval >= 0 && settings.Timeout >= 0
 //@   ensures fresh_obj: result != nil && fresh(result)
 //@   ensures inv: cbInv(result) && result.state == StateClosed && unlocked(result.mutex)
@@ -171,11 +171,27 @@ package circuitbreaker
 //@             && result.failureThreshold == (settings.FailureThreshold == 0 ? 5 : settings.FailureThreshold)
 
 //@ func (*CircuitBreaker).State
-//@   props C07
+//@   props C07 C12
 //@   requires unlocked(cb.mutex)
 //@   ensures result == cb.state
 
 //@ func (*CircuitBreaker).Counts
-//@   props C07 C08
+//@   props C07 C08 C12
 //@   requires unlocked(cb.mutex)
 //@   ensures failureCount == cb.failureCount && successCount == cb.successCount && requestCount == cb.requestCount
+
+// ---- access policies (C12)
+//@ field CircuitBreaker.state guarded_by CircuitBreaker.mutex
+//@ field CircuitBreaker.failureCount guarded_by CircuitBreaker.mutex
+//@ field CircuitBreaker.successCount guarded_by CircuitBreaker.mutex
+//@ field CircuitBreaker.requestCount guarded_by CircuitBreaker.mutex
+//@ field CircuitBreaker.lastFailureTime guarded_by CircuitBreaker.mutex
+//@ field CircuitBreaker.lastSuccessTime guarded_by CircuitBreaker.mutex
+//@ field CircuitBreaker.nextAttempt guarded_by CircuitBreaker.mutex
+//@ field CircuitBreaker.maxRequests immutable
+//@ field CircuitBreaker.interval immutable
+//@ field CircuitBreaker.timeout immutable
+//@ field CircuitBreaker.failureThreshold immutable
+//@ field CircuitBreaker.successThreshold immutable
+//@ field CircuitBreaker.onStateChange immutable
+//@ field CircuitBreaker.name immutable
